@@ -120,6 +120,8 @@ type bfn struct {
 	notes  []string
 	// subst replaces a join by the alternative under consideration (phiSplit)
 	subst map[ssa.Value]ssa.Value
+	// inInduction: phis whose step is being examined (no nested induction)
+	inInduction map[*ssa.Phi]bool
 }
 
 func (F *bfn) rep(v ssa.Value) ssa.Value {
@@ -556,6 +558,49 @@ func (F *bfn) defFacts(z *zone, site ssa.Instruction) {
 						}
 					}
 				}
+				if x.Op == token.ADD {
+					// a + b <= len(Y) + c when b <= len(Y[a:]) + c: a position
+					// found in the tail that starts at a, counted from the start
+					// (only for `int`, the type of positions and lengths, which
+					// cannot wrap; unsigned sums wrap and are tested for it)
+					if bt, isB := x.Type().Underlying().(*types.Basic); !isB || bt.Kind() != types.Int {
+						break
+					}
+					if _, k1 := constInt(F.rep(x.X)); !k1 {
+						if _, k2 := constInt(F.rep(x.Y)); !k2 {
+							sum := x
+							for _, pair := range [][2]ssa.Value{{x.X, x.Y}, {x.Y, x.X}} {
+								// a + b >= a when b >= 0
+								la, lb0, lt0 := F.linear(pair[0]), F.linear(pair[1]), F.linear(sum)
+								z.pending = append(z.pending, func() {
+									if z.proveLE(zLin{a: "0"}, lb0) {
+										z.addLE(la, lt0, 0)
+									}
+								})
+							}
+							for _, pair := range [][2]ssa.Value{{x.X, x.Y}, {x.Y, x.X}} {
+								a, b := F.rep(pair[0]), pair[1]
+								for _, b2 := range F.f.Blocks {
+									for _, in2 := range b2.Instrs {
+										sl, isSl := in2.(*ssa.Slice)
+										if !isSl || sl.High != nil || sl.Low == nil || F.rep(sl.Low) != a || in2 == site || !instrDominates(in2, site) {
+											continue
+										}
+										ls, ly, lb, lt := F.lenLin(sl), F.lenLin(sl.X), F.linear(b), F.linear(sum)
+										z.pending = append(z.pending, func() {
+											for _, c := range []int64{-2, -1, 0} {
+												if z.proveLE(lb, zLin{a: ls.a, k: ls.k + c, neg: ls.neg}) {
+													z.addLE(lt, zLin{a: ly.a, k: ly.k + c, neg: ly.neg}, 0)
+													break
+												}
+											}
+										})
+									}
+								}
+							}
+						}
+					}
+				}
 				if x.Op == token.SUB {
 					// x - y <= x for y >= 0 (lengths and sums of lengths), when
 					// the difference is not itself a linear form of one atom
@@ -589,6 +634,52 @@ func (F *bfn) defFacts(z *zone, site ssa.Instruction) {
 			}
 		}
 	}
+}
+
+// diffNonNeg: v is p - q and a comparison of these same two values that holds
+// on the way to block b says q <= p (`if len(s) >= width { return }` …
+// `width - len(s)`), whatever forms p and q have.
+func (F *bfn) diffNonNeg(v ssa.Value, b *ssa.BasicBlock) bool {
+	bo, ok := F.rep(v).(*ssa.BinOp)
+	if !ok || bo.Op != token.SUB {
+		return false
+	}
+	if bt, isB := bo.Type().Underlying().(*types.Basic); !isB || bt.Kind() != types.Int {
+		return false
+	}
+	p, q := F.rep(bo.X), F.rep(bo.Y)
+	for _, f := range factsAt(b) {
+		cond, truth := normCond(f.Cond, f.Truth)
+		cmp, isCmp := cond.(*ssa.BinOp)
+		if !isCmp {
+			continue
+		}
+		same := func(a, b ssa.Value) bool { return a == b || F.linear(a) == F.linear(b) }
+		x, y := F.rep(cmp.X), F.rep(cmp.Y)
+		op := cmp.Op
+		if !truth {
+			switch op {
+			case token.LSS:
+				op = token.GEQ
+			case token.LEQ:
+				op = token.GTR
+			case token.GTR:
+				op = token.LEQ
+			case token.GEQ:
+				op = token.LSS
+			default:
+				continue
+			}
+		}
+		// q <= p ?
+		switch {
+		case same(x, q) && same(y, p) && (op == token.LSS || op == token.LEQ):
+			return true
+		case same(x, p) && same(y, q) && (op == token.GTR || op == token.GEQ):
+			return true
+		}
+	}
+	return false
 }
 
 // nonNeg: v >= 0 provable now, or v is (load of a non-negative field)+const.
@@ -658,7 +749,39 @@ func (c *Ctx) fieldNonNeg(fv *types.Var) bool {
 func (F *bfn) phiFacts(z *zone, x *ssa.Phi) {
 	var init ssa.Value
 	dir := 0
-	for _, e := range x.Edges {
+	if F.inInduction[x] {
+		return
+	}
+	for ei, e := range x.Edges {
+		if bo, ok := e.(*ssa.BinOp); ok && bo.Op == token.ADD && (bo.X == ssa.Value(x) || bo.Y == ssa.Value(x)) {
+			// phi + d with d not a constant but non-negative where the step
+			// is taken (`start += n + 1` after `n != -1`)
+			d := bo.Y
+			if bo.Y == ssa.Value(x) {
+				d = bo.X
+			}
+			bt, isB := x.Type().Underlying().(*types.Basic)
+			if _, isConst := constInt(d); !isConst && ei < len(x.Block().Preds) && isB && bt.Kind() == types.Int {
+				pred := x.Block().Preds[ei]
+				if F.inInduction == nil {
+					F.inInduction = map[*ssa.Phi]bool{}
+				}
+				F.inInduction[x] = true
+				z2 := newZone()
+				F.defFacts(z2, pred.Instrs[len(pred.Instrs)-1])
+				F.pathFacts(z2, pred)
+				okStep := z2.proveLE(zLin{a: "0"}, F.linear(d)) && !z2.proveLE(zLin{a: "0", k: 1}, zLin{a: "0"})
+				delete(F.inInduction, x)
+				if !okStep {
+					return
+				}
+				if dir < 0 {
+					return
+				}
+				dir = 1
+				continue
+			}
+		}
 		if bo, ok := e.(*ssa.BinOp); ok && bo.X == ssa.Value(x) && (bo.Op == token.ADD || bo.Op == token.SUB) {
 			n, ok := constInt(bo.Y)
 			if !ok || n <= 0 {
@@ -840,6 +963,16 @@ func (F *bfn) pathFacts(z *zone, b *ssa.BasicBlock) {
 // ---- load equivalence (go/ssa has no CSE) and store-to-load forwarding ----
 
 func (F *bfn) addrKey(a ssa.Value) string {
+	// a pointer read from a local that is known to hold a field's address
+	// (`cursor.unread = &iter.data` … `*cursor.unread`)
+	if u, isLoad := a.(*ssa.UnOp); isLoad && u.Op == token.MUL {
+		if r, ok := F.loadEq[a]; ok && r != a {
+			switch r.(type) {
+			case *ssa.FieldAddr, *ssa.Alloc:
+				return F.addrKey(r)
+			}
+		}
+	}
 	switch x := a.(type) {
 	case *ssa.FieldAddr:
 		base := x.X
@@ -1170,6 +1303,7 @@ func (F *bfn) computeLoadEq() {
 					continue
 				}
 				// latest dominating source with the same key and no kill between
+				found := false
 				for i := len(sources) - 1; i >= 0; i-- {
 					s := sources[i]
 					if s.key != k || !instrDominates(s.in, x) {
@@ -1177,7 +1311,40 @@ func (F *bfn) computeLoadEq() {
 					}
 					if F.noKillBetween(s.in, x, k) {
 						F.loadEq[x] = F.rep(s.val)
+						found = true
 						break
+					}
+				}
+				// a field of a local struct that was assigned as a whole from
+				// another local struct (the copy a value receiver is): the
+				// field of the original at the time of the copy
+				if fa, isFA := x.X.(*ssa.FieldAddr); isFA && !found && strings.HasPrefix(k, "FL(") {
+					if dst, isAlloc := fa.X.(*ssa.Alloc); isAlloc {
+						var whole *ssa.Store
+						n := 0
+						for _, r := range *dst.Referrers() {
+							if st, isSt := r.(*ssa.Store); isSt && st.Addr == ssa.Value(dst) {
+								whole = st
+								n++
+							}
+						}
+						if n == 1 && instrDominates(whole, x) {
+							if ld, isLd := whole.Val.(*ssa.UnOp); isLd && ld.Op == token.MUL {
+								if srcAl, isAl := ld.X.(*ssa.Alloc); isAl && !srcAl.Heap {
+									k2 := fmt.Sprintf("FL(%s)#%s.%d", srcAl.Name(), srcAl.Type().String(), fa.Field)
+									for i := len(sources) - 1; i >= 0; i-- {
+										s := sources[i]
+										if s.key != k2 || !instrDominates(s.in, ld) {
+											continue
+										}
+										if F.noKillBetween(s.in, ld, k2) {
+											F.loadEq[x] = F.rep(s.val)
+											break
+										}
+									}
+								}
+							}
+						}
 					}
 				}
 				sources = append(sources, src{x, x, k})
@@ -1268,7 +1435,7 @@ func (c *Ctx) boundsObligations(keep func(f *ssa.Function) bool) []*boundsOb {
 						cnt := F.linear(x.Call.Args[1])
 						F.floatFacts(z, x.Call.Args[1], b)
 						ob := &boundsOb{Fn: f, In: in, Kind: "repeat-count", OK: true, Fields: fieldsIn(x.Call.Args[1], 0)}
-						if !z.proveLE(zLin{a: "0"}, cnt) {
+						if !z.proveLE(zLin{a: "0"}, cnt) && !F.diffNonNeg(x.Call.Args[1], b) {
 							ob.OK = false
 							ob.Why = " count>=0 not established (strings.Repeat panics on a negative count);"
 						}
